@@ -85,7 +85,7 @@ for (hn, mac, T, args, chunk, maxrel, unw, warm, dom, tier) in _STEP_ROWS:
     HARNESSES[hn] = H("c03", ["C03", "C04"], tier=tier, cap=600, thorough_cap=5400, mem=6,
         sym=("new ratio: every f64 accepted by set_resample_ratio (D_full)" if dom == "full" else
              "new ratio: k/32, k any u8 accepted by the setter (D_grid)") + "; ramp: bool; caller buffer surplus lengths in [0,2]",
-        bounds="%s<%s> %s, original ratio 1.0, chunk %d, max_rel %s, 1 channel, unwind %d; concrete warm-up (ratio, calls) %s; then 1 symbolic setter + 1 call; index-signal input, sentinel output; region [base]" % (_TYPES[mac], T, args, chunk, maxrel, unw, warm))
+        bounds="%s<%s> %s, original ratio 1.0, chunk %d, max_rel %s, 1 channel; concrete warm-up (ratio, calls) %s; then 1 symbolic setter + 1 call; index-signal input, sentinel output; region [base]" % (_TYPES[mac], T, args, chunk, maxrel, warm))
 HARNESSES["c03_witness"] = H("c03", ["C03", "C04"], witness=True, cap=600,
     sym="as c03_ffo_nearest_full", bounds="final check must FAIL (vacuity witness)")
 HARNESSES["dbg_oob"] = H("dbg", ["C99"], tier="quick", cap=300, sym="debug", bounds="debug harness for the counterexample pipeline (not a property)")
@@ -126,8 +126,8 @@ def _c09(name, typ, part, stubs=(), cap=480, witness=False):
                         stubs=ALLOC_STUBS + list(stubs), untagged="C09", witness=witness, mem=6)
 for nm, typ, st in (("ffo", "FastFixedOut<f64> Linear chunk 2, 2 ch, max_rel 2", ()),
                     ("ffi", "FastFixedIn<f32> Nearest chunk 2, 2 ch, max_rel 2", ()),
-                    ("sfo", "SincFixedOut<f64>+Probe(2,2) Linear chunk 2, 2 ch", ()),
-                    ("sfi", "SincFixedIn<f32>+Probe(2,2) Cubic chunk 2, 2 ch", ()),
+                    ("sfo", "SincFixedOut<f64>+Probe(2,2) Linear max chunk 3 (set_chunk_size(2) in the history), 2 ch", ()),
+                    ("sfi", "SincFixedIn<f32>+Probe(2,2) Cubic max chunk 3 (set_chunk_size(2) in the history), 2 ch", ()),
                     ("ftio", "FftFixedInOut<f64> 2->3 chunk 2, 2 ch", FFT_STUBS),
                     ("fti", "FftFixedIn<f64> 2->3 chunk 3, 2 ch", FFT_STUBS),
                     ("fto", "FftFixedOut<f32> 2->3 chunk 4, 2 ch", FFT_STUBS)):
@@ -184,18 +184,19 @@ _c16("c16_vec_calls", "Box<dyn VecResampler<f64>> over FastFixedOut chunk 2: pro
 _c16("c16_witness", "twin of a different degree: must FAIL (vacuity witness)", _pp, witness=True)
 
 # ---------------------------------------------------------------- C11: channel independence and masks
-def _c11(name, bounds, sym, stubs=(), cap=600, witness=False, tier="quick"):
-    HARNESSES[name] = H("c11", ["C11"], cap=cap, sym=sym, bounds=bounds, stubs=stubs, untagged="C11", witness=witness, mem=6, tier=tier)
+def _c11(name, bounds, sym, stubs=(), cap=900, witness=False, tier="quick"):
+    HARNESSES[name] = H("c11", ["C11"], cap=cap, sym=sym, bounds=bounds, stubs=stubs, untagged="C11", witness=witness, mem=(7 if stubs else 6), tier=tier)
 _m = "mask None or Some([m0,m1]) symbolic (all-false included; inactive channels passed EMPTY slices)"
-_c11("c11_ffo_sym", "FastFixedOut<f64> Nearest chunk 6: one 2-channel instance vs two 1-channel twins, 1 call", _m + "; sample data: every finite f32 value per sample (copy-only kernel)")
-_c11("c11_ffo_linear_line", "FastFixedOut<f32> Linear chunk 5 ratio 0.75: 2-channel vs two 1-channel twins, 1 call, two distinct index lines", _m)
-_c11("c11_sfo_sym", "SincFixedOut<f64>+Probe(2,1) Nearest chunk 4: 2-channel vs 1-channel twins, 1 call", _m + "; symbolic finite samples")
-_c11("c11_sfi_sym", "SincFixedIn<f64>+Probe(2,1) Nearest chunk 6: 2-channel vs twins, 1 call", _m + "; symbolic finite samples")
-_c11("c11_ffi_line", "FastFixedIn<f64> Linear chunk 12: 2-channel vs twins, 1 call, index lines", _m)
-_c11("c11_ftio_sym", "FftFixedInOut<f64> 2->3 chunk 2: 2-channel vs twins, 2 calls (overlap buffers per channel)", _m + "; symbolic finite samples in call 1", stubs=FFT_STUBS)
-_c11("c11_fto_line", "FftFixedOut<f64> 2->3 chunk 4: 2-channel vs twins, 1 call", _m, stubs=FFT_STUBS)
-_c11("c11_fti_line", "FftFixedIn<f64> 2->3 chunk 4: 2-channel vs twins, 1 call", _m, stubs=FFT_STUBS)
-_c11("c11_witness", "twins swapped: must FAIL (vacuity witness)", _m, witness=True)
+_c11("c11_ffo_ch1", "FastFixedOut<f64> Nearest chunk 6: 2-channel instance vs a 1-channel twin standing for channel 1, 1 call, distinct index lines", _m)
+_c11("c11_ffo_ch0_linear", "FastFixedOut<f32> Linear chunk 5 ratio 0.75: 2-channel vs 1-channel twin for channel 0, 1 call", _m)
+_c11("c11_sfo_ch1_sym", "SincFixedOut<f64>+Probe(2,1) Nearest chunk 2: 2-channel vs twin for channel 1, 1 call", _m + "; sample data: every finite f32 value per sample (copy-only kernel)")
+_c11("c11_sfo_ch0_sym", "SincFixedOut<f64>+Probe(2,1) Nearest chunk 2: 2-channel vs twin for channel 0, 1 call", _m + "; symbolic finite samples")
+_c11("c11_sfi_ch1_sym", "SincFixedIn<f64>+Probe(2,1) Nearest chunk 5: 2-channel vs twin for channel 1, 1 call", _m + "; symbolic finite samples")
+_c11("c11_ffi_ch1_line", "FastFixedIn<f64> Nearest chunk 12: 2-channel vs twin for channel 1, 1 call, index lines", _m)
+_c11("c11_ftio_ch1", "FftFixedInOut<f64> 2->3 chunk 2: 2-channel vs twin for channel 1, 2 calls (per-channel overlap buffers)", _m + "; symbolic finite samples in call 1", stubs=FFT_STUBS)
+_c11("c11_fto_ch1", "FftFixedOut<f64> 2->3 chunk 4: 2-channel vs twin for channel 1, 1 call", _m, stubs=FFT_STUBS)
+_c11("c11_fti_ch0", "FftFixedIn<f64> 2->3 chunk 4: 2-channel vs twin for channel 0, 1 call", _m, stubs=FFT_STUBS)
+_c11("c11_witness", "twin fed the other channel's data: must FAIL (vacuity witness)", "none", witness=True)
 
 # ---------------------------------------------------------------- C17: f32 / f64 twins
 def _c17(name, bounds, sym, stubs=(), cap=600, witness=False, tier="quick"):
@@ -271,3 +272,26 @@ HARNESSES["c10_sfo_ctor_ratio"] = H("c03x", ["C10", "C04"], cap=1200, mem=6, unt
     bounds="SincFixedOut<f64>+Probe(2,1) chunk 2: getters of a fresh instance vs after reset() (no processing call; allocation sizes are symbolic)")
 HARNESSES["c10_ffo_ctor_ratio"] = H("c03x", ["C10", "C04"], cap=1200, mem=6, untagged="C10", sym="CONSTRUCTOR ratio: every f64 in [0.5, 2]",
     bounds="FastFixedOut<f64> chunk 2: getters fresh vs after reset()")
+
+# ---------------------------------------------------------------- additions after the seeded-change analysis
+_c06("c06_ffi_change_grid", ["C06"], "FastFixedIn<f64> Linear chunk 8, max_rel 1.5; 2 warm-up calls at ratio 1; setter + 1 call (variable number of frames)", "new ratio k/32 (D_grid); ramp bool", tier="thorough")
+_c06("c06_sfi_change_grid", ["C06"], "SincFixedIn<f64>+Probe(8,2) Linear chunk 8, max_rel 1.5; 2 warm-up calls; setter + 1 call; strict probe", "new ratio k/32 (D_grid); ramp bool", tier="thorough")
+_c06("c06_sfo_after_ramp_grid", ["C06"], "SincFixedOut<f64>+Probe(8,2) Linear chunk 3: 2 warm-up calls, ramped change, the ramp chunk, then the chunk AFTER the ramp: spacing == 1/new from its first frame, windows on supplied data", "new ratio k/32 (D_grid), ramp = true")
+_c06("c07_ffi_slow", ["C07"], "FastFixedIn<f64> Linear chunk 8, original ratio 0.1 (1/r > 7): ratio set once, 6 calls; uniform spacing across chunk boundaries, lag bound", "ratio k/1024 in [0.08, 0.125]")
+_c06("c08_ffo_cubic_poly", ["C08"], "FastFixedOut<f64> Cubic chunk 3: input is a cubic polynomial of the frame index; 2 calls; every frame inside the stream equals the polynomial at -4+(j+1)/r within 1e-9", "ratio k/32 (D_grid)", tier="thorough")
+for _n, _t in (("c03_ffo_two_steps", "FastFixedOut<f64> Nearest chunk 2"), ("c03_sfo_two_steps", "SincFixedOut<f64>+Probe(8,1) Nearest chunk 2"), ("c03_ffi_two_steps", "FastFixedIn<f64> Nearest chunk 2 (4 warm-up calls; k/32 grid)")):
+    HARNESSES[_n] = H("c03", ["C03", "C04"], tier="thorough", cap=3600, thorough_cap=7200, mem=8,
+        sym="TWO successive steps, each: new ratio (every accepted f64; FixedIn: k/32), ramp, surplus lengths", bounds=_t + ", max_rel 2; 1 warm-up call; region [base]")
+for _n, _t in (("c03_ffo_reset_step", "FastFixedOut<f64> Nearest chunk 2"), ("c03_sfo_reset_step", "SincFixedOut<f64>+Probe(8,1) Nearest chunk 2")):
+    HARNESSES[_n] = H("c03", ["C03", "C04"], cap=900, sym="post-reset ratio change k/32 (D_grid); ramp; surplus lengths",
+        bounds=_t + ", max_rel 2: ratio 0.5 + call, reset(), symbolic setter + call, one more call; region [base]")
+_c17("c17_real_new_getters", "SincFixedOut::<f32>::new vs ::<f64>::new (real table generation, scalar kernel) for sinc_len 8 and 20: every getter equal", "which sinc_len (bool)", stubs=["CpuFeature::is_detected -> false"])
+HARNESSES["c07_fto_2_3_2_1"] = H("c07f", ["C07", "C04"], cap=900, mem=7, stubs=FFT_STUBS, untagged="C04", props_thorough=["C03"],
+    sym="caller buffer surplus lengths in [0,1]", bounds="FftFixedOut::<f64>::new(2, 3, 2, 1, 1): FFT block (3) larger than the output chunk (2): some calls need no input; 4 calls")
+for _n, _d, _r in (("c08_ffi_quintic_line", "Quintic", "1.6"), ("c08_ffi_septic_line", "Septic", "0.8"), ("c08_ffi_cubic_line", "Cubic", "2.0")):
+    _c06(_n, ["C08"], "FastFixedIn<f64> %s chunk 8, constant ratio %s, 3 calls on the index signal: every frame inside the stream sits at -4+(j+1)/ratio (window selection; a line is reproduced exactly by every degree >= 1)" % (_d, _r),
+         "none (concrete ratio with non-integer instants; the solver decides the safety checks and the equalities)")
+_c13("c13_shape_fti_zero_output_lite", "FftFixedIn<f64>::new(2,3,1,1,2): chunk smaller than the FFT block, first call advertises zero output frames; symbolic shapes; result classification, writes nothing, getters unchanged", stubs=FFT_STUBS)
+_c13("c13_ffo_failed_call_midstream", "FastFixedOut<f64> Linear ratio 0.75 chunk 2: two valid calls on the index signal, one failed call, then a valid call compared bit-exactly with a twin", sym="which malformed call: input one frame short / output one frame short / too many input channels")
+_c05("c05_ftio_vs_fto_small_chunk", "FftFixedInOut(2,3,2) 2 calls vs FftFixedOut(2,3,1,1) 6 calls: FFT block 3 larger than the output chunk 1; outputs bit-identical", "none (concrete)", stubs=FFT_STUBS)
+_c06("c06_ffo_change_big", ["C06"], "FastFixedOut<f64> Linear chunk 20, max_rel 2: 1 warm-up call, setter + 1 call (the input need during a ramp only matters when chunk*|1/old-1/new| exceeds the 8-frame margin)", "new ratio k/32 (D_grid); ramp bool", tier="thorough", cap=3600)
